@@ -9,6 +9,7 @@ import Verif.Drv.PingSched
 import Verif.Drv.ChanSched
 import Verif.Drv.Sig
 import Verif.Drv.RunSched
+import Verif.Drv.AsyncIo
 import Verif.Drv.ExecSched
 import Verif.Drv.Timeout
 
@@ -41,6 +42,7 @@ def main (args : List String) : IO UInt32 := do
   | ["timeout"] => lineLoop stdin stdout Verif.Drv.Timeout.step; return 0
   | ["runsched"] => stateLoop stdin stdout Verif.Drv.RunSched.stepLine {}; return 0
   | ["execsched"] => stateLoop stdin stdout (Verif.Drv.ExecSched.stepLine Verif.Generated.Consts.EXECUTOR_BATCH) {}; return 0
+  | ["asyncio"] => stateLoop stdin stdout Verif.Drv.AsyncIo.stepLine {}; return 0
   | ["sig"] => stateLoop stdin stdout Verif.Drv.Sig.stepLine none; return 0
   | ["pingsched"] => stateLoop stdin stdout Verif.Drv.PingSched.stepLine {}; return 0
   | ["coremon"] => stateLoop stdin stdout Verif.Drv.Core.monLine {}; return 0
